@@ -594,7 +594,10 @@ def _resolve_expr(node, defs):
     return T().visit(copy.deepcopy(node))
 
 
-def run(ctx):
+def local_numbering_tables(ctx):
+    """The literal tables that tie barycentric / dual dofs to LOCAL vertices and edges of the coarse element (also run
+    by C03: an operator is invariant under a cyclic rotation of local vertex orders only if these follow the library's
+    local edge numbering (0,1), (2,0), (1,2))."""
     B, ln = bary.barycentric_table(ctx)
     pts = bary.ref_points(ctx)
     ctx.sample({"barycentric_table": B})
@@ -603,6 +606,10 @@ def run(ctx):
     dual1(ctx, B)
     rwg_tables(ctx, B, pts)
     bc_reference_edge(ctx, B)
+
+
+def run(ctx):
+    local_numbering_tables(ctx)
     bcfan.fan_bundles(ctx)
     bary_inherit(ctx)
     bary_family(ctx)
@@ -610,6 +617,9 @@ def run(ctx):
     idxspace.index_spaces(ctx)
     dualasm.dual1_assembly(ctx)
     baryvert.barycentric_vertices(ctx)
+    from . import c11 as _c11
+
+    _c11.refinement(ctx)  # barycentric spaces live on the barycentric grid: its children, midpoints and inherited domain indices
 
 
 def _builder_chains(fn):
